@@ -248,11 +248,7 @@ GATE_DIFFERENT = [
 ]
 
 
-GATE_SAME = [
-    ('own method that leaves the attribute alone',
-     'class R:\n    def _bump(self):\n        self.n += 1\n    def f(self):\n        self._bump()\n        return self.pos\n',
-     'class R:\n    def _bump(self):\n        self.n += 1\n    def f(self):\n        t = self.pos\n        self._bump()\n        return t\n', 'R.f'),
-]
+GATE_SAME = []       # (the per-method effect summaries were withdrawn after red-team round 3)
 
 
 def _canon(src, extra, side):
